@@ -111,7 +111,31 @@ def execute(p, chooser):
             return run
 
         ts = [det.spawn("c0", canceller)] + [det.spawn("e%d" % k, env(k)) for k in range(p["env_threads"])]
+        ws = []
+        for wi, wkind in enumerate(p.get("waiters", [])):
+            def waiter(wkind=wkind):
+                import concurrent.futures as cf
+                if out is None:
+                    return
+                t0 = det.now()
+                try:
+                    if wkind == "result":
+                        r = ("value", out.result(50))
+                    elif wkind == "wait":
+                        d, nd = cf.wait([out], timeout=50)
+                        r = ("wait", out in d)
+                    else:
+                        r = ("as_completed", [x is out for x in cf.as_completed([out], timeout=50)])
+                except BaseException as e:
+                    if isinstance(e, det.Abort):
+                        raise
+                    r = ("raised", type(e).__name__)
+                obs.setdefault("waits", []).append((wkind, r, det.now()))
+            ws.append(det.spawn("w%d" % wi, waiter))
         for t in ts:
+            t.join()
+        obs["t_done"] = det.now()
+        for t in ws:
             t.join()
         det.emit("endscen")
         with det.atomic():
